@@ -611,9 +611,10 @@ impl World {
         // reported under the property that is being checked only when that property owns the
         // event (C10); other checks count it and go on without the stuck member
         let kind = e.split('(').next().unwrap_or(e).to_string();
-        if self.prop == "C10" {
+        if self.prop == "C10" || self.prop == "C01" {
+            // C10 (E1) and C01 ("every receiver holds the same state") both own this event
             self.violate(
-                format!("C10|honest_commit_rejected|{kind}"),
+                format!("{}|honest_commit_rejected|{kind}", self.prop),
                 format!("receiver {r} rejected the commit of {committer}: {e}"),
             );
         } else if self.prop == "C07" && self.rejoined_same_storage.contains(&r) {
